@@ -387,7 +387,22 @@ impl Parser {
             .copied()
             .filter(|prefix| self.arena.intentions.line_extent(prefix.parameter.into()).is_none())
             .collect::<Vec<_>>();
-        let comments = CommentCapture::new(source, &entities)
+        // The payload of a `@[format(verbatim)]` annotation is copied from the source as it is,
+        // comments included.
+        let copied = self
+            .arena
+            .terms
+            .iter()
+            .filter_map(|(_, term)| match term {
+                | Term::Meta(MetaT(meta, inner)) => {
+                    let directive = meta.specialize::<crate::metadata::FormatMeta>().ok()??;
+                    let (start, end) = self.spans[&EntityId::Term(*inner)].get_cursor1();
+                    (directive.verbatim && source.get(start..end).is_some()).then_some(start..end)
+                }
+                | _ => None,
+            })
+            .collect::<Vec<_>>();
+        let comments = CommentCapture::new(source, &entities, &copied)
             .with_arm_prefixes(arm_prefixes.iter().map(|prefix| (prefix.first, prefix.start)));
         let layouts = entities
             .iter()
